@@ -21,7 +21,7 @@ pub static DEF: CheckDef = CheckDef {
     id: "C03",
     level: "exploration",
     technique: "deterministic multi-node network simulation with ground-truth stores: seeded histories of put / targeted put / local store / get over real nodes on the in-memory transport with unresponsive peers; every node's store is read after each operation and compared with the values the history issued; RPC trace oracle for targets and for not-found",
-    runs: (400, 15000),
+    runs: (1200, 40000),
     generate,
     execute,
     shrink,
